@@ -72,7 +72,7 @@ NA = {
  "C05": "conformance of byte layouts and calendar arithmetic to TDS 5.0 needs value comparison with a reference codec, which is another technique family (DESIGN.md §4)",
 }
 
-# clauses added after seed rounds 7 to 12 (structural necessary conditions, one sentence each; details per rule in DESIGN.md §3)
+# clauses added after seed rounds 7 to 13 (structural necessary conditions, one sentence each; details per rule in DESIGN.md §3)
 EXTRA = {
  "C01": " Also: the packet header is serialised and parsed at the offsets of the specification, nothing on the reader goroutine's path writes the transmit side of a channel, the channel id reaches the header without passing through a narrower integer type, the wire image of a packet has exactly Header.Length bytes, and a PACKSIZE member of an ENVCHANGE sets the size in force or fails; SetPosition is only the rollback of a failed receive attempt and AddPacket only the receive path; typed writers go through WriteBytes; sendPacket is called by the queue flush, Close and NewChannel only.",
  "C02": " Also: the retry decision uses errors.Is on the not-enough-bytes sentinel, and what a completed package frees is decided on the packet under the position after the shift; Bytes fails only when every queued packet is consumed; the header parser accepts every 16-bit length; end of message comes from the EOM bit only; typed readers go through Bytes and no generic io reader runs over the queue.",
@@ -84,7 +84,7 @@ EXTRA = {
  "C10": " Also: only completely parsed packages become the predecessor of the next one, end of message resets or rolls back but never both, LookupFieldFmt never calls a method on a nil format, and a tokenless package has its buffer.",
  "C11": " Also: the callback's error is returned only inside the error that carries the messages, an ENVCHANGE with no member is parsed, the messages of an EEDError are only appended to, and a send or Reset does not touch the receive queue.",
  "C12": " Also: the receive queue is used by the reader goroutine only, and the channel-map lock is not held across a delivery that can block; the channel id occupies header bytes 4..5, a packet number is taken in the iteration that writes the packet, closed is tested under the lock before a queue is used, a transport error keeps its cause, no held RWMutex is re-acquired through a callee, the end-of-message reset is complete, errors of the connection reach polling consumers, and the wire image has Header.Length bytes.",
- "C13": " Also: Conn.Close closes the values of a range over the channel map, Channel.Close unregisters on every path that marks it closed, the connection's context descends from the one passed to NewConn, and the channel's write lock is taken by Close and the setters only; a channel id is handed out once, and NextPackageUntil returns a failed receive with its error in the chain; nothing is delivered by a goroutine the reader started; loops around receive calls end on any error; the wait for the rest of a packet consults the connection's context.",
+ "C13": " Also: Conn.Close closes the values of a range over the channel map, Channel.Close unregisters on every path that marks it closed, the connection's context descends from the one passed to NewConn, and the channel's write lock is taken by Close and the setters only; a channel id is handed out once, and NextPackageUntil returns a failed receive with its error in the chain; nothing is delivered by a goroutine the reader started; loops around receive calls end on any error; the wait for the rest of a packet consults the connection's context; every lock taken in package tds is released on every exit.",
  "C14": " Also: a polling consumer is told 'no package ready' only by the select that also offers the error queues; the completeness test of Packet.ReadFrom is accepted in the counter form and in the remaining-slice form (the latter only when every way back to the read advances the slice); the distinguished error conditions are plain errors.New sentinels; a queued package is handed out before any context is consulted; header-only means Length == 8; Packet.WriteTo reports the transport count; Logout succeeds only after the answer; SendRemainingPackets flushes once.",
  "C15": " Also: NewPacketQueue stores the size function it is given, and String(n) is exactly the converted bytes of Bytes(n); Read hands on the error of Bytes.",
  "C16": " Also: no magnitude-only copy of a signed number, the DECN/NUMN magnitude is right-aligned in its slot, the reading methods store nothing into the receiver, and SetBytes and SetInt64 store the value as it is given; sanity rejects nothing inside the valid region; Cmp looks at precision and scale; NewDecimal checks the values it was given.",
